@@ -16,6 +16,7 @@ META = {
         'in-type unit pairs: all 1310 (both tiers); triples seeded; all 14x13 ordered pairs of '
         'distinct types (representative units seeded; thorough: 6 unit choices per type pair)',
         'plain numbers: int, bool, Decimal, Fraction, float, symbolic rational, on either side',
+        'user type with 7 units declared in every accepted form (int in a term, int * unit, Decimal, Fraction, chained): all 49 pairs',
     ],
     'outside_bounds': ['distributivity k*(a+b) on quantized types (rounding differs by design; C05)',
                        'complex numbers, numpy scalars'],
@@ -65,6 +66,8 @@ def jobs(tier, seed):
     for ch in C.chunks(us, 7):
         out.append({'fn': 'with_numbers', 'cfg': {'units': ch}})
     out.append({'fn': 'sum_fn', 'cfg': {'pairs': C.sample(rng, pairs, 40 if tier == 'quick' else 300)}})
+    out.append({'fn': 'add_user', 'cfg': {'fa': 'dec', 'fb': 'frac'}})
+    out.append({'fn': 'add_user', 'cfg': {'fa': 'frac', 'fb': 'dec'}})
     out.append({'fn': 'add_pair', 'cfg': {'fa': 'dec', 'fb': 'frac', 'pairs': [['ft', 'cm']],
                                           'canary': True}, 'canary': True})
     LAST_CONFIG_INFO.clear()
@@ -116,6 +119,32 @@ def add_pair(E, cfg):
         E.check(_ref((qa + qb) * k) == k * (ra + rb), 'scalar-right-mult')
     if cfg.get('canary'):
         E.check(_ref(d) == ra + rb, 'canary-diff-as-sum')
+
+
+def add_user(E, cfg):
+    """units of a user type declared in every accepted form (int in a term, int * unit, Decimal, Fraction, chained)"""
+    from quantity import Quantity
+    T, units = C.user_linear_type()
+    syms = sorted(units)
+    us, vs = E.choice('pair', [(x, y) for x in syms for y in syms])
+    (u, su), (v, sv) = units[us], units[vs]
+    a = E.rational('a', cfg['fa'])
+    b = E.rational('b', cfg['fb'])
+    qa, qb = Quantity(a, u), Quantity(b, v)
+    info = [us, vs]
+    s = qa + qb
+    E.check(type(s) is T and s.unit is u, 'user-sum-class-unit', key='user:class-unit', info=info)
+    E.check(s.amount * su == a * su + b * sv, 'user-sum-reference-value', key='user:sum', info=info)
+    d = qa - qb
+    E.check(d.unit is u and d.amount * su == a * su - b * sv, 'user-diff-reference-value', key='user:diff', info=info)
+    s2 = qb + qa
+    E.check(s2.unit is v and s2.amount * sv == a * su + b * sv, 'user-sum-commuted', key='user:sum', info=info)
+    E.check(s2 == s, 'user-sum-commutative-eq', key='user:commutative', info=info)
+    E.check(((qa - qb) + qb).amount == a, 'user-sub-then-add', key='user:sub-add', info=info)
+    for name, op in CMP:
+        E.check(E.Iff(op(qa, qb), op(a * su, b * sv)), 'user-%s-agrees-with-reference' % name, key='user:cmp', info=info)
+    E.check(E.Iff(qa == qb, a * su == b * sv), 'user-eq-agrees-with-reference', key='user:eq', info=info)
+    E.check(E.n_roundings() in (0, None), 'user-no-rounding', key='user:rounding')
 
 
 def add_triple(E, cfg):
